@@ -14,8 +14,12 @@ EXTENDS Naturals, Sequences, FiniteSets, TLC, Json
             ClearBeforeCopy   the container is cleared before the new value is read (x.f = x.f, += erase)
             CopyThroughSet    the new value is copied through a set (order and repetitions lost)
             UnhookedExtend    extend/update insert without recording relations
+            AliasedFirstAssignment  a managed container of another object given to the constructor (dataclasses.replace)
+                              is adopted without recording the relations of its elements for the new owner
+ Lazy views of the field's own contents (reversed(x.f), a generator over x.f, itertools.chain(x.f, [y])) are assignments
+ whose value is evaluated while the setter runs: ClearBeforeCopy evaluates them against the emptied container.
  ***************************************************************************************************)
-CONSTANTS MaxSteps, MaxLen, Hist, ClearBeforeCopy, CopyThroughSet, UnhookedExtend
+CONSTANTS MaxSteps, MaxLen, Hist, ClearBeforeCopy, CopyThroughSet, UnhookedExtend, AliasedFirstAssignment
 VARIABLES lst, st, facts, ilst, ist, ifacts, steps, h, done
 vars == <<lst, st, facts, ilst, ist, ifacts, steps, h, done>>
 Elems == {"b", "c", "d"}
@@ -23,8 +27,11 @@ Seqs == UNION { [1..n -> Elems] : n \in 0..2 }
 Sets == SUBSET Elems
 SeqSet(s) == { s[i] : i \in DOMAIN s }
 \* facts implied by the elements of the two fields of `a`
-FactsOfList(s) == UNION { { <<"knows", "a", x>>, <<"known_by", x, "a">> } : x \in SeqSet(s) }
-FactsOfSet(S) == UNION { { <<"known_by", "a", x>>, <<"knows", x, "a">> } : x \in S }
+FactsOfListS(sub, s) == UNION { { <<"knows", sub, x>>, <<"known_by", x, sub>> } : x \in SeqSet(s) }
+FactsOfSetS(sub, S) == UNION { { <<"known_by", sub, x>>, <<"knows", x, sub>> } : x \in S }
+FactsOfList(s) == FactsOfListS("a", s)
+FactsOfSet(S) == FactsOfSetS("a", S)
+Rev(s) == [i \in DOMAIN s |-> s[Len(s) + 1 - i]]
 InsertAt(s, i, x) == SubSeq(s, 1, i) \o <<x>> \o SubSeq(s, i + 1, Len(s))          \* list.insert(i, x), 0 <= i <= len
 SetAt(s, i, x) == [s EXCEPT ![i + 1] = x]                                            \* s[i] = x
 Slice(s, i, j, t) == SubSeq(s, 1, i) \o t \o SubSeq(s, j + 1, Len(s))                \* s[i:j] = t, i <= j
@@ -49,6 +56,28 @@ AssignL(s) == \E r \in SetterList(ilst, s, FALSE) : Do([k |-> "assign_list", v |
 SelfAssignL == \E r \in SetterList(ilst, ilst, TRUE) : Do([k |-> "self_assign_list"], lst, st, r, ist, r, {})
 IAddL(s) == \* tmp = list.__iadd__(field, s)  ;  field = tmp  (the same container object)
             \E r \in SetterList(ilst \o s, ilst \o s, TRUE) : Do([k |-> "iadd_list", v |-> s], lst \o s, st, r, ist, r, {})
+\* a.knows = <lazy view of a.knows>: reversed(a.knows) | (e for e in a.knows) | itertools.chain(a.knows, [x])
+View(kind, cur, x) == CASE kind = "reversed" -> Rev(cur) [] kind = "gen" -> cur [] OTHER -> Append(cur, x)
+AssignViewL(kind, x) ==
+  LET nl == View(kind, lst, x)
+      il == View(kind, IF ClearBeforeCopy THEN <<>> ELSE ilst, x)
+  IN \E r \in (IF CopyThroughSet THEN Orders(SeqSet(il)) ELSE {il}) :
+        Do([k |-> "assign_view_list", view |-> kind, x |-> x], nl, st, r, ist, r, {})
+AssignViewS(kind, x) ==
+  LET ns == IF kind = "chain" THEN st \cup {x} ELSE st
+      cur == IF ClearBeforeCopy THEN {} ELSE ist
+      is == IF kind = "chain" THEN cur \cup {x} ELSE cur
+  IN Do([k |-> "assign_view_set", view |-> kind, x |-> x], lst, ns, ilst, is, <<>>, is)
+\* a2 = dataclasses.replace(a, name="a2"): the constructor of the new object receives a's managed containers as first values
+\* of its own fields.  R: a2's fields hold the same elements and every element is related to a2 as well.  Only as the last
+\* write (whether the two objects share later in-place writes is not this property's business).
+Replace ==
+  /\ steps = MaxSteps - 1
+  /\ lst' = lst /\ st' = st /\ ilst' = ilst /\ ist' = ist
+  /\ facts' = facts \cup FactsOfListS("a2", lst) \cup FactsOfSetS("a2", st)
+  /\ ifacts' = IF AliasedFirstAssignment THEN ifacts ELSE ifacts \cup FactsOfListS("a2", ilst) \cup FactsOfSetS("a2", ist)
+  /\ steps' = steps + 1 /\ done' = FALSE
+  /\ h' = IF Hist THEN Append(h, [op |-> [k |-> "replace"], lst |-> lst, st |-> st, facts |-> facts']) ELSE h
 AppendL(x) == Do([k |-> "append", x |-> x], Append(lst, x), st, Append(ilst, x), ist, <<x>>, {})
 ExtendL(s) == Do([k |-> "extend", v |-> s], lst \o s, st, ilst \o s, ist, IF UnhookedExtend THEN <<>> ELSE s, {})
 InsertL(i, x) == i <= Len(lst) /\ i <= Len(ilst)
@@ -75,6 +104,8 @@ Write == /\ steps < MaxSteps
             \/ \E i \in 0..MaxLen, j \in 0..MaxLen, s \in Seqs : SetSliceL(i, j, s)
             \/ \E S \in Sets : AssignS(S) \/ IOrS(S) \/ UpdateS(S)
             \/ SelfAssignS
+            \/ \E kind \in {"reversed", "gen", "chain"}, x \in Elems : (kind = "chain" \/ x = "b") /\ (AssignViewL(kind, x) \/ AssignViewS(kind, x))
+            \/ Replace
 Next == Finish \/ Write
 Spec == Init /\ [][Next]_vars
 
